@@ -32,7 +32,8 @@ ASSUMPTIONS = [
 ]
 REQUIRED_COUNTERS = ['runs_checked', 'events_logged']
 CASE_TIMEOUT = 300
-PREDICATES = ['none', 'all_true', 'all_false', 'every_3rd', 'only_last', 'first_selected_late', 'first_occurrence']
+PREDICATES = ['none', 'all_true', 'all_false', 'every_3rd', 'only_last', 'first_selected_late', 'first_occurrence',
+              'truthy_not_bool']
 QUIET_S = 6.0
 WATCHDOG_S = 60.0
 
@@ -116,6 +117,9 @@ def predicate_for(name, n):
             seen.add(k)
             return True
         return first_occurrence
+    if name == 'truthy_not_bool':
+        # a predicate answers by truth value: a remainder (0 / 1 / 2), a text ('' / 'x'), None / an object
+        return lambda row: [row['id'] % 3, '' if row['id'] % 2 else 'x', None if row['id'] % 5 else row][row['id'] % 3]
     return {'all_true': lambda row: True, 'all_false': lambda row: False,
             'every_3rd': lambda row: row['id'] % 3 == 0, 'only_last': lambda row: row['id'] % 1000 == n - 1,
             'first_selected_late': lambda row: row['id'] % 1000 >= (2 * n) // 3}[name]
